@@ -86,6 +86,9 @@ def variant_call(emd, variant, x, **kw):
         # with logging never set up (the documented convergence error), it is the outcome in every logger state
         kw = dict(kw, imf_opts={'max_iters': 3, 'sd_thresh': 1e-6})
         variant = variant[:-len('-noconv')]
+    if variant == 'sift-n11':
+        # the record with trailing singleton dimensions (n,1,1): accepted with logging untouched, so accepted in every state
+        return emd.sift.sift(x[:, None, None], max_imfs=2, **kw)
     if variant == 'sift-kwdata':
         # the record passed by keyword: whatever this call does with logging untouched, it does in every logger state
         return emd.sift.sift(X=x, max_imfs=2, **kw)
@@ -237,7 +240,7 @@ OPS = st.one_of(
     st.tuples(st.just('call'), st.sampled_from([None, 'CRITICAL', 'WARNING', 'INFO', 'DEBUG']), st.booleans(),
               st.sampled_from(['sift', 'mask_sift', 'ensemble_sift', 'complete_ensemble_sift'])),
     st.tuples(st.just('call'), st.sampled_from([None, 'CRITICAL', 'INFO', 'DEBUG']), st.just(False),
-              st.sampled_from(['sift-noconv', 'mask_sift-noconv', 'ensemble_sift-noconv', 'sift-kwdata'])))
+              st.sampled_from(['sift-noconv', 'mask_sift-noconv', 'ensemble_sift-noconv', 'sift-kwdata', 'sift-n11'])))
 
 random_strategy = st.fixed_dictionaries({'start': st.sampled_from(['fresh', 'setup']),
                                          'hist': st.lists(OPS, min_size=1, max_size=12)})
